@@ -167,6 +167,54 @@ def gen_items(r, profile, nitems, maxst=4, limit=None):
     return items
 
 
+BUILTIN_OPS = ["> %s", ">> %s", "1> %s", "2> %s", "2>> %s", "2>&1", "1>&2", ">&2"]
+BUILTIN_CMDS = ["alias", "alias a b c", "minfd"]      # prints to stdout / a usage error to stderr / a number to stdout
+
+
+def builtin_redir_lists(r, tier):
+    """redirection lists for a builtin that is the whole line: every list of length 1 and 2 over BUILTIN_OPS (quick) or 1..3
+    (thorough), plus random lists of length 3 and 4; each list is a tuple of op templates"""
+    ls = [(a,) for a in BUILTIN_OPS] + [(a, b) for a in BUILTIN_OPS for b in BUILTIN_OPS]
+    if tier != "quick":
+        ls += [(a, b, c) for a in BUILTIN_OPS for b in BUILTIN_OPS for c in BUILTIN_OPS]
+    for _ in range(36 if tier == "quick" else 400):
+        ls.append(tuple(r.choice(BUILTIN_OPS) for _ in range(3 + r.below(2))))
+    return ls
+
+
+def builtin_redir_sessions(r, tier, per_session=6):
+    """sessions made of builtins that are the whole line, each with one of the lists above (left-to-right meaning of
+    `2> f 1>&2`, `1>&2 2> f`, `2>&1 > f` ... on the builtin path of `builtins::utils`)"""
+    lists = builtin_redir_lists(r, tier)
+    sessions = []
+    k = 0
+    items = []
+    for i, ops in enumerate(lists):
+        if not items:
+            items = [("P", "alias q7=v")]
+            k = 0
+            tn = 0
+        words = []
+        for op in ops:
+            if "%s" in op:
+                tn += 1
+                tgt = "pre1" if (op.startswith(">>") or op.startswith("2>>")) and r.below(2) == 0 and "pre1" not in " ".join(words) else "t%d" % tn
+                w = op % tgt
+                words.append(w if r.below(2) else w.replace(" ", "", 1))
+            else:
+                words.append(op)
+        cmd = BUILTIN_CMDS[i % len(BUILTIN_CMDS)]
+        items.append(("P", cmd + " " + " ".join(words)))
+        items.append(("P", "fdstage q%d P S$?" % k))
+        k += 1
+        if k == per_session:
+            sessions.append(items)
+            items = []
+    if items:
+        sessions.append(items)
+    return sessions
+
+
 def render_script(items):
     lines = []
     for it in items:
